@@ -26,9 +26,9 @@ const chk = "doc-events"
 type Case struct {
 	Input string `json:"input"`
 	Hex   string `json:"hex,omitempty"`
-	// Before: what the Document object was used for before the judged full read: "next:<k>" reads
-	// k events, "len" and "check" call Len / Check (the first call of each scans the whole text and
-	// leaves the document at its start)
+	// Before: what the Document object was used for before the rest of the events was read: "next:<k>"
+	// reads k events (they are the beginning of the judged sequence), "len" and "check" call Len /
+	// Check (which leave the event stream alone)
 	Before []string `json:"before,omitempty"`
 }
 
@@ -66,33 +66,42 @@ func events(in []byte, before ...string) (evs []lex.Ev, msg string) {
 		}
 	}()
 	d := libjson.New("doc", in)
-	rewound := true
+	conv := func(typ string, begin, end int, value func() []byte) (lex.Ev, string) {
+		e := lex.Ev{Type: typ, Begin: begin, End: end}
+		if e.Begin >= 0 && e.End < len(in) && e.Begin <= e.End {
+			if string(value()) != string(in[e.Begin:e.End+1]) {
+				return e, fmt.Sprintf("event %v: Value() is not the source slice", e)
+			}
+		}
+		return e, ""
+	}
+	// Len and Check neither consume events nor restart the stream: the events read before, between
+	// and after them are, together, the event sequence of the text
 	for _, op := range before {
 		switch {
 		case op == "len":
 			if _, err := d.Len(); err != nil {
 				return nil, fmt.Sprintf("Len returned %v for a valid JSON text", err)
 			}
-			rewound = true
 		case op == "check":
 			if err := d.Check(); err != nil {
 				return nil, fmt.Sprintf("Check returned %v for a valid JSON text", err)
 			}
-			rewound = true
 		default:
 			k := 0
 			fmt.Sscanf(op, "next:%d", &k)
 			for i := 0; i < k; i++ {
-				if _, err := d.NextLexeme(); err != nil {
+				l, err := d.NextLexeme()
+				if err != nil {
 					break
 				}
+				e, m := conv(l.Type().String(), int(l.Begin()), int(l.End()), func() []byte { return l.Value() })
+				if m != "" {
+					return evs, m
+				}
+				evs = append(evs, e)
 			}
-			rewound = false
 		}
-	}
-	if !rewound {
-		t := "harness bug: a history must end with len or check"
-		return nil, t
 	}
 	for i := 0; ; i++ {
 		l, err := d.NextLexeme()
@@ -106,11 +115,9 @@ func events(in []byte, before ...string) (evs []lex.Ev, msg string) {
 			}
 			return evs, fmt.Sprintf("NextLexeme returned error %v after %d events", err, len(evs))
 		}
-		e := lex.Ev{Type: l.Type().String(), Begin: int(l.Begin()), End: int(l.End())}
-		if e.Begin >= 0 && e.End < len(in) && e.Begin <= e.End {
-			if string(l.Value()) != string(in[e.Begin:e.End+1]) {
-				return evs, fmt.Sprintf("event %v: Value() is not the source slice", e)
-			}
+		e, m := conv(l.Type().String(), int(l.Begin()), int(l.End()), func() []byte { return l.Value() })
+		if m != "" {
+			return evs, m
 		}
 		evs = append(evs, e)
 		if i > 10*len(in)+100 {
@@ -127,7 +134,7 @@ func check(t run.TB, in []byte, before ...string) {
 	}
 	after := ""
 	if len(before) > 0 {
-		after = fmt.Sprintf(" [full read after %v on the same Document]", before)
+		after = fmt.Sprintf(" [events read through the history %v on one Document]", before)
 	}
 	got, msg := events(in, before...)
 	if msg != "" {
@@ -181,18 +188,22 @@ func TestDocEvents(t *testing.T) {
 		check(t, text)
 		run.Eval(chk, nontrivial(model, text), string(text))
 		run.Sample(chk, mk(text))
-		// a partial read followed by Len or Check (both start over), then the full read again
+		// reads interleaved with Len and Check on the same Document
 		if rapid.IntRange(0, 1).Draw(t, "reuse") == 0 {
-			// (only the first Len and the first Check scan the text - later calls return the
-			// remembered result and leave the read position alone - so each is used at most once)
 			var before []string
-			restarts := rapid.Permutation([]string{"len", "check"}).Draw(t, "restarts")
-			for i, n := 0, rapid.IntRange(1, 2).Draw(t, "nrounds"); i < n; i++ {
-				before = append(before, fmt.Sprintf("next:%d", rapid.IntRange(1, 24).Draw(t, "k")), restarts[i])
+			for i, n := 0, rapid.IntRange(1, 5).Draw(t, "nops"); i < n; i++ {
+				switch rapid.IntRange(0, 3).Draw(t, "op") {
+				case 0:
+					before = append(before, "len")
+				case 1:
+					before = append(before, "check")
+				default:
+					before = append(before, fmt.Sprintf("next:%d", rapid.IntRange(1, 24).Draw(t, "k")))
+				}
 			}
 			check(t, text, before...)
 			run.Eval(chk, false)
-			run.Label("full-read-after-partial-read-and-restart")
+			run.Label("reads-interleaved-with-len-and-check")
 		}
 		if model.Kind != ref.KObject && model.Kind != ref.KArray {
 			run.Label("top-level-scalar")
